@@ -327,16 +327,18 @@ func c12R2(c *Ctx, rule string) {
 			}
 		}
 	})
-	if cas == nil || closeCh == nil || bufClose == nil || streamCAS == nil {
+	// the stream's CAS may sit in a small boolean helper (markClosed): then the guard of recvBuf.Close() is the helper call
+	helperCAS := streamCAS == nil && bufClose != nil && wonCASGuard(c.P, bufClose, a.stClosed)
+	if cas == nil || closeCh == nil || bufClose == nil || (streamCAS == nil && !helperCAS) {
 		c.Bad(rule, "closeSession closes queue and buffers", c.atFn(f), fmt.Sprintf("missing: session CAS=%v close(acceptCh)=%v recvBuf.Close=%v stream CAS=%v", cas != nil, closeCh != nil, bufClose != nil, streamCAS != nil))
 		return
 	}
 	okLock1, _ := lockHeldByClass(ls.MustHeld(closeCh), a.streamsM)
 	okLock2, _ := lockHeldByClass(ls.MustHeld(bufClose), a.streamsM)
 	c.Check(instrDominates(cas, closeCh) && okLock1, rule, "close(acceptCh) after the flag is set, under streamsM", c.at(closeCh), "dominated by the CAS, streamsM held", "accept queue closed outside the table lock or before the closed flag is set: a concurrent send can hit a closed channel")
-	guarded := false
+	guarded := helperCAS
 	for _, at := range AtomsAt(bufClose) {
-		if at.Kind == "call" && at.Pol && at.Call == streamCAS {
+		if at.Kind == "call" && at.Pol && streamCAS != nil && at.Call == streamCAS {
 			guarded = true
 		}
 	}
@@ -571,14 +573,7 @@ func c12R5(c *Ctx, rule string) {
 	for _, cs := range decrSites {
 		f := cs.Parent()
 		construct := "decrement in " + shortFn(f)
-		won := false
-		for _, at := range AtomsAt(cs) {
-			if at.Kind == "call" && at.Pol && calleeName(&at.Call.Call) == "sync/atomic.CompareAndSwapUint32" {
-				if fv, _ := fieldVar(at.Call.Call.Args[0]); fv == a.stClosed {
-					won = true
-				}
-			}
-		}
+		won := wonCASGuard(p, cs, a.stClosed)
 		c.Check(won, rule, construct, c.at(cs), "guarded by a won CAS(&stream.closed,0,1)", "counter decremented without winning the stream's close CAS: a double close decrements twice and the count drifts")
 	}
 	// closeStream: exactly one decrement on every nil-returning path
